@@ -25,6 +25,7 @@ import (
 	"sort"
 	"strconv"
 	"strings"
+	"sync/atomic"
 	"time"
 
 	"github.com/go-faster/city"
@@ -80,11 +81,13 @@ type LSimple struct {
 	IsStr bool   `json:"is_str"`
 	Str   string `json:"str"` // hex
 	Num   string `json:"num"` // %x
+	Ill   bool   `json:"ill,omitempty"` // a string operator with a numeric literal: makeFilter must refuse it
 }
 
 type Out struct {
-	Err     string  `json:"err"` // "" | "err" | "panic" | "plan"
+	Err     string  `json:"err"` // "" | "err" | "panic" | "plan" | "planpanic" (Process() itself panicked)
 	ErrMsg  string  `json:"err_msg,omitempty"`
+	Cancel  bool    `json:"cancel"` // ctx.CancelCtx was called during the run
 	Entries []Entry `json:"entries"` // non-EOF entries, stable-sorted by fingerprint
 }
 
@@ -304,7 +307,9 @@ func describeFilter(f *logql_parser.LabelFilter) *LFilter {
 		ls.IsStr = isStr
 		if isStr {
 			if s.StrVal == nil {
-				panic("string label filter without string value")
+				ls.Ill = true
+				r.Simple = ls
+				return r
 			}
 			str, err := s.StrVal.Unquote()
 			if err != nil {
@@ -377,11 +382,26 @@ func describe(p shared.RequestProcessor) (Stage, bool) {
 
 // ---------------------------------------------------------------------------------- running a case
 
-func newCtx(c *Case) (*shared.PlannerContext, context.CancelFunc) {
+// newCtx: the third result tells whether the chain called ctx.CancelCtx (the side effect of the limit stage)
+func newCtx(c *Case) (*shared.PlannerContext, context.CancelFunc, *int32) {
 	cctx, cancel := context.WithCancel(context.Background())
+	called := new(int32)
 	return &shared.PlannerContext{
-		From: time.Unix(0, c.From), To: time.Unix(0, c.To), Limit: c.Limit, Ctx: cctx, CancelCtx: cancel,
-	}, cancel
+		From: time.Unix(0, c.From), To: time.Unix(0, c.To), Limit: c.Limit, Ctx: cctx,
+		CancelCtx: func() { atomic.StoreInt32(called, 1); cancel() },
+	}, cancel, called
+}
+
+// safeProcess: Process() runs on the request goroutine; a panic there is caught by the controller's recover and answered
+// with status 500
+func safeProcess(p shared.RequestProcessor, ctx *shared.PlannerContext) (out chan []shared.LogEntry, err error, panicked string) {
+	defer func() {
+		if r := recover(); r != nil {
+			panicked = fmt.Sprint(r)
+		}
+	}()
+	out, err = p.Process(ctx, nil)
+	return
 }
 
 func drain(out chan []shared.LogEntry, timeout time.Duration) ([][]Entry, bool) {
@@ -583,8 +603,9 @@ func setMain(p, m shared.RequestProcessor) { mainField(p).Set(reflect.ValueOf(m)
 
 // messages of a worker process to its parent
 type wmsg struct {
-	T   string    `json:"t"` // "s" stage output | "perr" Process error | "p" pipelined output | "done"
+	T   string    `json:"t"` // "s" stage output | "perr" Process error | "ppanic" Process panicked | "p" pipelined output | "done"
 	I   int       `json:"i"`
+	C   bool      `json:"c,omitempty"` // CancelCtx was called
 	Out [][]Entry `json:"out,omitempty"`
 	Msg string    `json:"msg,omitempty"`
 	Fin *Out      `json:"fin,omitempty"`
@@ -602,8 +623,15 @@ func workerRun(c *Case, emit func(wmsg)) {
 	for i, p := range procs {
 		done := make(chan struct{})
 		setMain(p, &upstream{batches: in, matrix: matrix, done: done})
-		ctx, cancel := newCtx(c)
-		out, perr := p.Process(ctx, nil)
+		ctx, cancel, called := newCtx(c)
+		out, perr, pp := safeProcess(p, ctx)
+		if pp != "" {
+			emit(wmsg{T: "ppanic", I: i, Msg: pp})
+			emit(wmsg{T: "done"})
+			cancel()
+			close(done)
+			return
+		}
 		if perr != nil {
 			emit(wmsg{T: "perr", I: i, Msg: perr.Error()})
 			emit(wmsg{T: "done"})
@@ -625,7 +653,7 @@ func workerRun(c *Case, emit func(wmsg)) {
 		case *ip.LRAPlanner, *ip.UnwrapAggPlanner, *ip.AggOpPlanner, *ip.LabelFormatPlanner, *ip.ParserPlanner:
 			time.Sleep(2 * time.Millisecond)
 		}
-		emit(wmsg{T: "s", I: i, Out: res})
+		emit(wmsg{T: "s", I: i, Out: res, C: atomic.LoadInt32(called) != 0})
 		in = res
 	}
 	// pipelined run on a freshly planned chain
@@ -638,9 +666,14 @@ func workerRun(c *Case, emit func(wmsg)) {
 		recs[i] = &[][]Entry{}
 		setMain(procs[i+1], &tap{inner: procs[i], rec: recs[i], done: done})
 	}
-	ctx, cancel := newCtx(c)
+	ctx, cancel, called := newCtx(c)
 	defer cancel()
-	out, perr := procs[len(procs)-1].Process(ctx, nil)
+	out, perr, pp := safeProcess(procs[len(procs)-1], ctx)
+	if pp != "" {
+		emit(wmsg{T: "ppanic", I: -1, Msg: pp})
+		emit(wmsg{T: "done"})
+		return
+	}
 	if perr != nil {
 		emit(wmsg{T: "perr", I: -1, Msg: perr.Error()})
 		emit(wmsg{T: "done"})
@@ -653,6 +686,7 @@ func workerRun(c *Case, emit func(wmsg)) {
 		return
 	}
 	o := canon(final)
+	o.Cancel = atomic.LoadInt32(called) != 0
 	emit(wmsg{T: "p", Fin: &o})
 	emit(wmsg{T: "done"})
 }
@@ -712,6 +746,8 @@ func runCase(c *Case) {
 	var stageOuts [][][]Entry
 	var fin *Out
 	perr := ""
+	ppanic := ""
+	cancelled := false
 	finished := false
 	for {
 		line, err := w.out.ReadBytes('\n')
@@ -732,8 +768,11 @@ func runCase(c *Case) {
 				m.Out = [][]Entry{}
 			}
 			stageOuts = append(stageOuts, m.Out)
+			cancelled = cancelled || m.C
 		case "perr":
 			perr = m.Msg
+		case "ppanic":
+			ppanic = m.Msg
 		case "p":
 			fin = m.Fin
 		}
@@ -757,10 +796,13 @@ func runCase(c *Case) {
 		c.CrashStage = len(stageOuts)
 		c.CrashTrace = plannerTypes(w.stderr.String())
 		c.Out = Out{Err: "crash", ErrMsg: msg, Entries: []Entry{}}
+	case ppanic != "":
+		c.Out = Out{Err: "planpanic", ErrMsg: ppanic, Entries: []Entry{}}
 	case perr != "":
 		c.Out = Out{Err: "plan", ErrMsg: perr, Entries: []Entry{}}
 	default:
 		c.Out = canon(stageOuts[len(stageOuts)-1])
+		c.Out.Cancel = cancelled
 		if fin == nil {
 			c.Pipelined = "missing"
 		} else {
@@ -837,7 +879,7 @@ func buildTables(c *Case, ins [][]Entry) {
 		if f == nil {
 			return
 		}
-		if f.Simple != nil && f.Simple.IsStr && (f.Simple.Fn == "=~" || f.Simple.Fn == "!~") {
+		if f.Simple != nil && f.Simple.IsStr && !f.Simple.Ill && (f.Simple.Fn == "=~" || f.Simple.Fn == "!~") {
 			addRe(hx.UnHex(f.Simple.Str), "")
 			for _, e := range es {
 				addRe(hx.UnHex(f.Simple.Str), e.Labels[f.Simple.Label])
@@ -1031,6 +1073,10 @@ type genPlan struct {
 func genLabelFilter(r *rand.Rand, depth int) string {
 	simple := func() string {
 		k := pick(r, keyPool)
+		if r.Intn(60) == 0 {
+			// a string operator with a number: refused by both planners (the in-process one used to panic)
+			return k + pick(r, []string{" = ", " =~ ", " !~ "}) + pick(r, []string{"5", "2", "1.5"})
+		}
 		switch r.Intn(9) {
 		case 0:
 			return k + "=" + strconv.Quote(pick(r, valPool))
@@ -1360,6 +1406,10 @@ func genCase(r *rand.Rand, id int, pl *pools) Case {
 	default:
 		c.Limit = int64(1 + r.Intn(40))
 	}
+	if r.Intn(40) == 0 {
+		c.Limit = -int64(1 + r.Intn(5)) // the controller passes whatever ParseInt read
+		c.Class += "+neglimit"
+	}
 	// series and entries
 	nser := 1 + r.Intn(3)
 	if gp.unwrap && r.Intn(2) == 0 {
@@ -1515,6 +1565,10 @@ func genRefused(r *rand.Rand, id int) Case {
 		`bottomk(1, sum by (app) (count_over_time({app="x"} | logfmt [1m])))`,
 		`quantile_over_time(0.5, {app="x"} | json | unwrap n [1m])`,
 		`quantile_over_time(0.9, {app="x"} | line_format "{{.a}}" | unwrap _entry [1m]) by (app)`,
+		// a zero range: refused by MatrixPostProcessors before any stage divides by it
+		`rate({app="x"} | json [0s])`,
+		`sum by (app) (count_over_time({app="x"} | logfmt | unwrap n [0s]))`,
+		`absent_over_time({app="x"} [0s])`,
 	})
 	c.From = int64(1700000000) * 1e9
 	c.To = c.From + 60*1e9
